@@ -81,6 +81,12 @@ theorem Framed.hit {s : PState} {k : MemoKey} {res : MemoVal} (hm : MemoOK s)
   intro hb
   rw [restore_off]; exact hm.hit h hb
 
+theorem Framed.hit' {s : PState} {k : MemoKey} {res : MemoVal} (hm : MemoOK s)
+    (h : getMemoized s k = some res) : Framed E s res.b (restore (RT.hit s) res.end) := by
+  refine ⟨by stk_eq, fun _ => by simp, ?_, hm.congr (by simp)⟩
+  intro hb
+  rw [restore_off]; exact hm.hit h hb
+
 theorem Framed.memoized {s s1 : PState} {v : Val} {ok : Bool} {k : MemoKey} (h : Framed E s ok s1) :
     Framed E s ok (setMemoized s1 s.pt k { v := v, b := ok, «end» := s1.pt }) := by
   have hs : Stk E s1 (setMemoized s1 s.pt k { v := v, b := ok, «end» := s1.pt }) := by stk_eq
@@ -95,7 +101,12 @@ theorem wrap_frame (hrec : ∀ e s, FrameInv E s (rec e s)) (e : Expr) (s : PSta
   · exact hrec e s hm
   · split
     · split
-      · next res hres => exact Framed.hit hm hres
+      · next res hres =>
+        simp only []
+        split
+        · simp only [Outcome.Sat]
+          exact (by stk_eq : Stk E s (RT.hit s)).toPanic
+        · exact Framed.hit' hm hres
       · apply Outcome.sat_bind (hrec e s hm)
         intro v ok s1 h
         exact h.memoized
